@@ -3,7 +3,10 @@ real transports' read() methods, driven over scripted transports that go silent 
 
 A case is a JSON-able dict (see harness/c07.py: the generators).  run_case(case) returns the canonical
 observation: outcome class / message / value, elapsed wall-clock, hang flag, and the process-wide state
-afterwards (SIGALRM handler, ITIMER_REAL, leftover threads, channel lock, transport.isalive()).
+afterwards (SIGALRM handler, ITIMER_REAL, leftover threads, channel lock, transport.isalive()); asyncio
+cases also: asyncio.all_tasks() minus the tasks that existed before (at return and one loop iteration later),
+scripted reads still blocked at return, and - `follow` given, ScrapliTimeout, connection still open - the
+outcome of a following operation with the attribution of every device byte to the read that took it.
 
 Stalls block on a threading.Event / asyncio.Event owned by the harness; a watchdog owned by the
 harness releases them (`hang` = the watchdog had to), and everything is released and joined at the
@@ -109,56 +112,108 @@ def _sync_step(ctl, is_open):
 
 
 class _ACtl(_Ctl):
+    """asyncio flavour.  Besides the script it keeps what the property's asyncio observers need:
+    reads issued / ended (a read that is still blocked when the exception surfaces is `in flight`), and for every
+    chunk handed out the epoch in which the read that took it was ISSUED.  Epoch 0 is the operation under test;
+    begin_follow() starts epoch 1: the device stays silent until the following operation is waiting for it, then
+    answers with the follow-up stream (a read left over from epoch 0 that takes part of it has swallowed it)."""
+
     def __init__(self, steps):
         super().__init__(steps)
         self.loop = None
         self.a_released = None
-        self.a_wake = None
+        self.a_stall = None                 # wakes a "stall" read: harness release, or the device talks again
+        self.a_wake = None                  # wakes a "stall_closed" read: the above, or the transport was closed
+        self.epoch = 0
+        self.in_flight = 0
+        self.delivered = []                 # (epoch in which the read was issued, epoch of delivery, hex, script index)
+        self.pending_follow = None
+        self.follow_from = None             # script index of the first chunk of the follow-up answer
 
     def bind(self, loop):
         self.loop = loop
         self.a_released = asyncio.Event()
+        self.a_stall = asyncio.Event()
         self.a_wake = asyncio.Event()
 
     def release(self, watchdog=False):
         super().release(watchdog)
         self.a_released.set()
+        self.a_stall.set()
         self.a_wake.set()
 
     def closed(self):
         self.a_wake.set()
 
+    def begin_follow(self, steps):
+        self.epoch += 1
+        self.pending_follow = [tuple(s) for s in steps]
+
+    def reader_waiting(self):
+        """a read blocks on the silent device; once the following operation is the one waiting, the device answers"""
+        if self.pending_follow is not None and self.epoch > 0:
+            steps, self.pending_follow = self.pending_follow, None
+            self.loop.call_soon(self._device_answers, steps)
+
+    def _device_answers(self, steps):
+        with self.guard:
+            self.steps = self.steps[:self.ix] + list(steps)      # the stall it was sitting on is over
+            self.follow_from = self.ix
+        old_stall, old_wake = self.a_stall, self.a_wake
+        self.a_stall, self.a_wake = asyncio.Event(), asyncio.Event()
+        old_stall.set()                    # waiters are woken in the order in which they started to wait
+        old_wake.set()
+
 
 async def _async_step(ctl, is_open):
+    issued = ctl.epoch
+    ctl.in_flight += 1
+    try:
+        return await _async_step_inner(ctl, is_open, issued)
+    finally:
+        ctl.in_flight -= 1
+
+
+async def _async_step_inner(ctl, is_open, issued):
     from scrapli.exceptions import ScrapliConnectionError
 
-    if ctl.released.is_set():
-        raise HarnessReleased()
-    st = ctl.next()
-    k = st[0]
-    if k == "data":
-        return bytes.fromhex(st[1])
-    if k in ("ret", "exc", "ddata"):
-        if st[1]:
-            try:
-                await asyncio.wait_for(ctl.a_released.wait(), st[1])
-            except asyncio.TimeoutError:
-                pass
-        if k == "ret":
-            return st[2]
-        if k == "ddata":
+    while True:
+        if ctl.released.is_set():
+            raise HarnessReleased()
+        st = ctl.next()
+        k = st[0]
+        if k == "data":
+            ctl.delivered.append((issued, ctl.epoch, st[1], ctl.ix - 1))
+            return bytes.fromhex(st[1])
+        if k in ("ret", "exc", "ddata"):
+            if st[1]:
+                try:
+                    await asyncio.wait_for(ctl.a_released.wait(), st[1])
+                except asyncio.TimeoutError:
+                    pass
+            if k == "ret":
+                return st[2]
+            if k == "ddata":
+                if ctl.released.is_set():
+                    raise HarnessReleased()
+                ctl.delivered.append((issued, ctl.epoch, st[2], ctl.ix - 1))
+                return bytes.fromhex(st[2])
+            raise Boom(st[2])
+        ctl.stall_entered.set()
+        talked = ctl.a_stall                 # replaced (and set) when the device talks again
+        ctl.reader_waiting()
+        if k == "stall":
+            await talked.wait()
             if ctl.released.is_set():
                 raise HarnessReleased()
-            return bytes.fromhex(st[2])
-        raise Boom(st[2])
-    ctl.stall_entered.set()
-    if k == "stall":
-        await ctl.a_released.wait()
-        raise HarnessReleased()
-    await ctl.a_wake.wait()
-    if ctl.released.is_set() and is_open():
-        raise HarnessReleased()
-    raise ScrapliConnectionError("scripted transport closed while reading")
+            continue                         # the device talks again: take what it says
+        woke = ctl.a_wake
+        await woke.wait()
+        if ctl.released.is_set() and is_open():
+            raise HarnessReleased()
+        if not is_open():
+            raise ScrapliConnectionError("scripted transport closed while reading")
+        # still open and not released: the device talks again, take what it says
 
 
 # --------------------------------------------------------------------------------------------
@@ -495,7 +550,10 @@ def _build(case, ctl):
         tr = build_real_transport(case, ctl)
         return (lambda: tr.read()), tr, None
     mk = async_transport_class if is_async else sync_transport_class
-    tr = mk(case["cls"], case["wrapped"])(_bta(case), ctl)
+    if case.get("real"):                       # a channel operation over a REAL transport (its read() is decorated)
+        tr = build_real_transport(case, ctl)
+    else:
+        tr = mk(case["cls"], case["wrapped"])(_bta(case), ctl)
     if level == "tleaf":                       # the transport's own decorated read()
         return (lambda: tr.read()), tr, None
     bca = BaseChannelArgs(comms_prompt_pattern=PROMPT_PATTERN, timeout_ops=case["t_ops"],
@@ -510,6 +568,22 @@ def _build(case, ctl):
         from scrapli.channel.sync_channel import Channel
         ch = Channel(tr, bca)
     return (lambda: OPS[case["op"]](ch)), tr, ch
+
+
+# the operation that follows a timeout on a connection that was left open: (call, what the device answers)
+FOLLOW_OPS = {
+    "get_prompt": (lambda ch: ch.get_prompt(), [b"\nrouter#"]),
+    "get_prompt-2": (lambda ch: ch.get_prompt(), [b"\n", b"router#"]),
+    "send_input": (lambda ch: ch.send_input("show clock"), [b"show clock\n", b"12:00:01.001 UTC\n", b"router#"]),
+}
+
+
+def _canon_follow_ret(v):
+    if isinstance(v, str):
+        return {"kind": "ret", "text": v}
+    if isinstance(v, tuple) and len(v) == 2 and isinstance(v[1], bytes):
+        return {"kind": "ret", "text": v[1].decode("latin-1")}
+    return _canon_ret(v)
 
 
 def watchdog_after(case):
@@ -566,13 +640,64 @@ def run_case(case):
         t0 = time.monotonic()
         if is_async:
             async def go():
+                tasks_before = set(asyncio.all_tasks())
                 h = loop.call_later(W, lambda: ctl.release(watchdog=True))
                 try:
                     box["out"] = _canon_ret(await call())
                 except BaseException as e:  # noqa
                     box["out"] = _canon_exc(e)
                 box["t1"] = time.monotonic()
+                box["in_flight"] = ctl.in_flight          # reads still blocked at the instant the call came back
+                box["hang"] = bool(ctl.by_watchdog)
+                box["alive"] = bool(tr.isalive())         # (before anything follows on the connection)
+                box["lock_held"] = bool(ch is not None and ch.channel_lock is not None and ch.channel_lock.locked())
                 h.cancel()
+                left = []
+                seen = [t for t in asyncio.all_tasks() if t not in tasks_before]
+                box["tasks_at_return"] = len(seen)
+                try:
+                    await asyncio.sleep(0)                # exactly one loop iteration
+                    left = [t for t in asyncio.all_tasks() if t not in tasks_before and not t.done()]
+                    box["tasks"] = len(left)
+                    fol = case.get("follow")
+                    if (fol and not box["hang"] and box["out"].get("cls") == "ScrapliTimeout" and tr.isalive()
+                            and ch is not None):
+                        box["follow"] = await follow_up(fol, tasks_before)
+                        left = [t for t in asyncio.all_tasks() if t not in tasks_before and not t.done()]
+                finally:
+                    for t in left:                        # nothing outlives the case
+                        t.cancel()
+                    if left:
+                        await asyncio.gather(*left, return_exceptions=True)
+                    for t in seen:                        # (their exceptions are of no interest)
+                        if t.done() and not t.cancelled():
+                            t.exception()
+
+            async def follow_up(fol, tasks_before):
+                fcall, answer = FOLLOW_OPS[fol]
+                ctl.begin_follow([("data", b.hex()) for b in answer])
+                # should the operation not end by itself (no limit configured): the harness ends it
+                released = []
+                h2 = loop.call_later(1.5, lambda: (released.append(1), ctl.release()))
+                f0 = time.monotonic()
+                try:
+                    fout = _canon_follow_ret(await fcall(ch))
+                except BaseException as e:  # noqa
+                    fout = _canon_exc(e)
+                f1 = time.monotonic()
+                h2.cancel()
+                await asyncio.sleep(0)
+                now_left = [t for t in asyncio.all_tasks() if t not in tasks_before and not t.done()]
+                # what the device said in answer to this operation (output of the earlier one that was still unread when it
+                # timed out is simply read first and is not counted), by the read that took it
+                mine = [d for d in ctl.delivered if ctl.follow_from is not None and d[3] >= ctl.follow_from]
+                return {"op": fol, "out": fout, "elapsed": round(f1 - f0, 3), "hang": bool(released),
+                        "sent": "".join(b.hex() for b in answer),
+                        "received": "".join(d[2] for d in mine if d[0] >= 1),
+                        "swallowed": "".join(d[2] for d in mine if d[0] < 1),
+                        "tasks": len(now_left), "alive": bool(tr.isalive()),
+                        "lock_held": bool(ch.channel_lock is not None and ch.channel_lock.locked())}
+
             loop.run_until_complete(go())
         else:
             wd = threading.Timer(W, lambda: ctl.release(watchdog=True))
@@ -599,16 +724,22 @@ def run_case(case):
         obs = {
             "out": box.get("out"),
             "elapsed": round(box.get("t1", time.monotonic()) - t0, 3),
-            "hang": bool(ctl.by_watchdog),
-            "alive": bool(tr.isalive()),
+            "hang": bool(box.get("hang", ctl.by_watchdog)),
+            "alive": bool(box.get("alive", tr.isalive())),
             "handler_restored": after_handler is prev or after_handler == prev,
             "timer_after": [round(after_timer[0], 3), round(after_timer[1], 3)],
             "fired": len(fired),
             "leftover_threads": len(extra_threads),
-            "lock_held": bool(ch is not None and ch.channel_lock is not None and ch.channel_lock.locked()),
+            "lock_held": bool(box.get("lock_held", ch is not None and ch.channel_lock is not None and ch.channel_lock.locked())),
             "reads": ctl.reads,
             "mech_seen": ctl.mech_seen,
         }
+        if is_async:
+            obs["leftover_tasks"] = box.get("tasks", 0)
+            obs["reads_in_flight"] = box.get("in_flight", 0)
+            obs["tasks_at_return"] = box.get("tasks_at_return", 0)
+            if "follow" in box:
+                obs["follow"] = box["follow"]
     finally:
         signal.setitimer(signal.ITIMER_REAL, 0)
         signal.signal(signal.SIGALRM, signal.SIG_DFL)
